@@ -200,10 +200,22 @@ def _run(tape, out, elfi, root):
         force_how = None
         if op == 'abandon_open':
             op, force_how = 'reopen', 'abandon_open'
+        if op == 'close_open':
+            op, force_how = 'reopen', 'close_open'
         if op == 'remove_store':
             if len(cur_stores) <= 1:
                 continue
             victim = tape.choice('victim', cur_stores)
+            if on_disk and pool.has_context and tape.chance('store_set_changes_between_saves',
+                                                            1, 2):
+                # save, change the store set, close, open: what the second save writes must
+                # describe the pool as it is then
+                pool.save()
+                out.ev('P save')
+                out.sample['history'].append('save')
+                abstract.append(('save',))
+                forced_ops.append('close_open')
+                out.probes['store_set_changed_between_saves'] += 1
             saved_held[0] = None      # the pickles on disk still list the removed store
             st = pool.remove_store(victim)
             if hasattr(st, 'close'):
